@@ -81,8 +81,22 @@ def lines_suite(ctx):
 IGNORE = "  # pyrefact: ignore"
 
 
+SPELLINGS = ["  # pyrefact: ignore", "  #pyrefact: ignore", "  # pyrefact : ignore", "  #  pyrefact:ignore", "  # pyrefact: ignore  and some more text"]  # (no tabs: the first thing format_code does is expand them)
+# programs on which the rules of the direct-editing path (alter_code / _replace_nodes: import un-stacking and sorting, early continue,
+# overused constants, moving code in front of loops) have something to do
+ALTER_PROGRAMS = [
+    "import os, abc\nimport sys, json\nprint(os.sep, abc.ABC, sys.argv, json.dumps(1))\n",
+    "import sys\nimport os\nfrom b import z\nfrom a import y\nprint(os, sys, z, y)\n",
+    "def f(xs):\n    out = []\n    for x in xs:\n        if x > 1:\n            a = x + 1\n            b = a * 2\n            c = b - 3\n            d = c + a\n            e = d * b\n            out.append(e + c)\n    return out\n",
+    "def g(n):\n    for i in range(n):\n        k = 10 ** 6\n        print(i + k)\n",
+    "def h():\n    return ['a-long-literal-number-one', 'a-long-literal-number-one', 'a-long-literal-number-one', 'a-long-literal-number-one', 'a-long-literal-number-one']\n",
+    "import os\nimport os\nimport os.path\nprint(os.path.sep)\n",
+]
+
+
 def annotate_cases(ctx, n_prog):
     items = sweep.pick(sweep.generated_corpus(), ctx, n_prog) + sweep.pick(sweep.example_corpus(), ctx, n_prog)
+
     r = ctx.rng("annotate")
     cases = []
     for (sha, src, fam) in items:
@@ -91,10 +105,11 @@ def annotate_cases(ctx, n_prog):
         if not cand:
             continue
         fixed = sorted({cand[0], cand[len(cand) // 2], cand[-1]})  # the quick picks are a subset of the thorough ones (baseline covers both)
-        picks = cand if ctx.thorough and len(cand) <= 12 else fixed
+        picks = cand if (ctx.thorough and len(cand) <= 12) or fam == "direct-editing" else fixed
         for i in picks:
             new = list(lines)
-            new[i] = new[i] + IGNORE
+            # the spelling of the comment is a function of the case (every accepted spelling; the canonical one elsewhere in the file or not)
+            new[i] = new[i] + SPELLINGS[(i + int(sha[:4], 16)) % len(SPELLINGS)]
             cases.append((sha, i, "\n".join(new), new[i]))
     return cases
 
@@ -128,6 +143,44 @@ def annotate_suite(ctx):
                                     "what": f"the line {line.strip()!r} carries an ignore comment but does not occur verbatim in format_code's output"})
     s.samples.append({"suite": s.name, "annotation": IGNORE})
     s.note = "corpus programs with one physical line annotated '# pyrefact: ignore' (any statement line, nested or not); oracle: that line occurs verbatim among the output lines"
+    return s
+
+
+DIRECT_RULES = ["fixes.fix_duplicate_imports", "fixes.sort_imports", "fixes.move_before_loop", "fixes.early_continue", "abstractions.overused_constant", "fixes.remove_unused_imports",
+                "fixes.move_imports_to_toplevel", "fixes.fix_import_spacing", "fixes.swap_if_else", "fixes.remove_redundant_else", "fixes.remove_dead_ifs", "fixes.align_variable_names_with_convention"]
+
+
+def direct_suite(ctx):
+    """the rules that edit the text directly (alter_code / _replace_nodes / text surgery), one by one, on programs where they fire, with every
+    line annotated in every accepted spelling"""
+    s = Suite("direct-editing", kind="oracle")
+    known_rules = {k["witness"].get("rule") for k in common.load_known("C20") if k["kind"] == "finding"}
+    for prog in ALTER_PROGRAMS:
+        lines = prog.split("\n")
+        for i, l in enumerate(lines):
+            if not l.strip():
+                continue
+            for sp in SPELLINGS:
+                new = list(lines)
+                new[i] = new[i] + sp
+                src = "\n".join(new)
+                try:
+                    compile(src, "<annotated>", "exec")
+                except SyntaxError:
+                    continue
+                for rule_name in DIRECT_RULES:
+                    rule = oracles.resolve_rule(rule_name)
+                    s.cases += 1
+                    st, out = oracles._guarded(lambda: rule(src), 30)
+                    if st != "ok" or out == src:
+                        continue
+                    s.nt([rule_name, src])
+                    s.count(rule_name)
+                    if new[i] not in out.split("\n"):
+                        s.disagreements.append({"rule": rule_name, "src": src, "line": new[i], "line_no": i, "out": out,
+                                                "what": f"{rule_name}: the line {new[i].strip()!r} carries an ignore comment but does not occur verbatim in the rule's output"})
+    s.note = ("6 programs on which the direct-editing rules fire x every line annotated x 5 accepted spellings of the ignore comment x 12 rules applied in isolation: "
+              "the annotated line occurs verbatim in the rule's output; histogram = how often each rule changed the text")
     return s
 
 
@@ -181,12 +234,14 @@ def suites(ctx):
     r = ctx.rng("sched-ignored")
     c10.run_cases(ctx, [c10.gen_case(r) for _ in range(ctx.n(500, 8000))], sched)
     sched.note = "C10's scheduler correspondence (22% of the lines carry an ignore comment in 8 spellings)"
-    return [lines_suite(ctx), sched, skipfile_suite(ctx), annotate_suite(ctx)]
+    return [lines_suite(ctx), sched, skipfile_suite(ctx), annotate_suite(ctx), direct_suite(ctx)]
 
 
 def match_known(d, known):
     for k in known:
         w = k.get("witness", {}) if k["kind"] == "finding" else {}
+        if w and "rule" in d and "rule" in w and w["rule"] == d["rule"]:
+            return k
         if w and w.get("sha") == d.get("sha") and w.get("line_no") == d.get("line_no"):
             return k
     return None
@@ -195,6 +250,9 @@ def match_known(d, known):
 def replay_witness(ctx, kf):
     common.import_pyrefact()
     w = kf["witness"]
+    if "rule" in w and "src" in w:
+        out = oracles.resolve_rule(w["rule"])(w["src"])
+        return w["line"] not in out.split("\n")
     if "src" in w and "line" in w:
         res = task_annotated((w["src"], w["line"]))
         return res["status"] == "ok" and not res["verbatim"]
